@@ -293,9 +293,10 @@ func c08Region(c *Ctx, setRemote, getDir, findByMid, satisfy, setDirection, dire
 		}
 		return absint.Tuple{absint.Nil{}, absint.Top{}}
 	}
-	cfgT := absint.Config{P: c.P, Dims: dims, MaxPaths: 400000, MaxDepth: 5,
-		// callees that can reach setDirection are interpreted; all other module callees cannot write a direction (static call relation, R4)
-		Inline: func(fn *types.Func) bool { return mayWrite[fn] },
+	cfgT := absint.Config{P: c.P, Dims: dims, MaxPaths: 400000, MaxDepth: 8,
+		// callees that can reach setDirection are interpreted, and so are helpers over plain values (a direction computed by an
+		// extracted function); all other module callees cannot write a direction (static call relation, R4)
+		Inline: func(fn *types.Func) bool { return mayWrite[fn] || c13ValueHelper(fn) },
 		Pure:   func(fn *types.Func) bool { return !mayWrite[fn] },
 		OnCall: func(in *absint.Interp, st *absint.State, call *ast.CallExpr, fn *types.Func, recv absint.Val, args []absint.Val) (absint.Val, bool) {
 			switch fn {
@@ -325,7 +326,7 @@ func c08Region(c *Ctx, setRemote, getDir, findByMid, satisfy, setDirection, dire
 			return nil, false
 		},
 	}
-	t := absint.TabulateRegion(cfgT, g, setRemote.Obj.Type().(*types.Signature), setRemote.Obj, absint.Region{Start: start, Stops: stops})
+	t := absint.TabulateRegion(cfgT, g, setRemote.Obj.Type().(*types.Signature), setRemote.Obj, absint.Region{Start: start, Stops: stops, Prelude: c13RegionPrelude(g, setRemote.Decl, start, stops, nil)})
 	if tableProblems(c, "C08.R1", "SetRemoteDescription|loop-body-table", c.P.Pos(rs.Pos()), t) {
 		return nil, false
 	}
@@ -414,7 +415,8 @@ func c08Satisfy(c *Ctx, satisfy *core.FuncInfo, remoteDom, localDom []absint.Val
 		{Key: lk + "[0].Mid()", Domain: mids},
 		{Key: lk + "[1].Mid()", Domain: mids},
 	}
-	t := absint.Tabulate(absint.Config{P: c.P, Dims: dims, MaxPaths: 1000000}, satisfy)
+	// helpers over plain values (e.g. the preference table extracted into its own function) are interpreted
+	t := absint.Tabulate(absint.Config{P: c.P, Dims: dims, MaxPaths: 1000000, Inline: c13ValueHelper}, satisfy)
 	if tableProblems(c, "C08.R3", "satisfyTypeAndDirection|table", pos, t) {
 		return nil, false
 	}
